@@ -29,7 +29,12 @@ structure InvM (cfg : Cfg) (a : Acc) (s : St) : Prop where
   unsub : UnSub a.unans s.reqs
   inprog : a.inprog = s.writing
 
-theorem InvM_init (cfg : Cfg) : InvM cfg {} St.init := by
+theorem InvM_fresh (cfg : Cfg) : InvM cfg {} St.init := by
+  refine ⟨?_, ?_, rfl⟩
+  · intro _ t ht; cases ht
+  · intro p hp; cases hp
+
+theorem InvM_init (cfg : Cfg) : InvM cfg (Acc.init cfg) (initSt cfg) := by
   refine ⟨?_, ?_, rfl⟩
   · intro _ t ht; cases ht
   · intro p hp; cases hp
@@ -473,7 +478,7 @@ theorem InvM_step (cfg : Cfg) (a : Acc) (s : St) (op : Op) (idx : Nat) (hi : Inv
   | reopen =>
     refine ⟨specObsM_other _ _ _ _ _ (by simp), ?_⟩
     simp only [step, stepOp]
-    exact InvM_init cfg
+    exact InvM_fresh cfg
   | wbegin =>
     refine ⟨specObsM_other _ _ _ _ _ (by simp), ?_⟩
     simp only [step, stepOp]
@@ -564,10 +569,10 @@ theorem InvM_trace (cfg : Cfg) (hmax : 2 ≤ cfg.max) : ∀ (ops : List Op) (a :
 /-! ### reading `must` off a history -/
 
 /-- the tags for which, according to the observations, a Tdiscarded is still to be seen -/
-def mustAfterHist (h : List (Op × Obs)) : List Nat := (accAfter {} h).must
+def mustAfterHist (cfg : Cfg) (h : List (Op × Obs)) : List Nat := (accAfter (Acc.init cfg) h).must
 
 /-- a `write` call is in progress at the end of the history -/
-def writeInProgress (h : List (Op × Obs)) : Bool := (accAfter {} h).inprog
+def writeInProgress (cfg : Cfg) (h : List (Op × Obs)) : Bool := (accAfter (Acc.init cfg) h).inprog
 
 /-- a written, unanswered pair stays until the peer answers its tag or the connection is replaced -/
 theorem unans_persist (p : Nat × Nat) : ∀ (h : List (Op × Obs)) (a : Acc), (∀ q ∈ h, q.1 ≠ .reopen) →
